@@ -203,8 +203,10 @@ func (e *Executor) RunTask(ctx context.Context, call *Call) error {
 			}
 		}
 
-		if err := e.mkdir(t); err != nil {
-			e.Logger.Errf(logger.Red, "task: cannot make directory %q: %v\n", t.Dir, err)
+		if !e.Dry {
+			if err := e.mkdir(t); err != nil {
+				e.Logger.Errf(logger.Red, "task: cannot make directory %q: %v\n", t.Dir, err)
+			}
 		}
 
 		var deferredExitCode uint8
